@@ -41,3 +41,6 @@ CLAIMED['C11'] = (_SCHED.replace('scheduler/farm', 'farm/worker hand-off'), _SCH
 _FSM = 'bounded-history symbolic exploration of the real life-cycle machine (state.FSM + transitions + state.dot, submit front end, dispatch archive branch) with CrossHair+z3: event schedule incl. completion of every background step = z3 selectors, exhausted within the bound'
 CLAIMED['C10'] = (_FSM, _SCHED_TXT, _BASE_NOTE, 'DESIGN.md section 5 C10')
 CLAIMED['C12'] = (_FSM, _SCHED_TXT, _BASE_NOTE, 'DESIGN.md section 5 C12')
+CLAIMED['C16'] = (
+    'CrossHair+z3 program-shaped exploration: (factory-kind subset, injected violation, position) as z3 selectors, exhausted; real tools.compliant._verify (rule_01..11) and dag.Construct/schedule.build/periodics run on each generated package',
+    'The generated package space (15 kind subsets x 21 conditions x positions) is exhausted; the solver steers the combinations, the rules run concretely.', _BASE_NOTE, 'DESIGN.md section 5 C16')
